@@ -131,7 +131,7 @@ CHECK = {
         "P3R.C07.fold_arity2_eq", "P3R.C07.fold_arity2_path_eq", "P3R.C07.fold_arity4_eq", "P3R.C07.fold_general_eq",
         "P3R.C07.horner_cols_eq", "P3R.C07.native_cols_eq", "P3R.C07.open_input_fast_path_eq",
         "P3R.C07.final_poly_eq",
-        "P3R.C07.Witness.shape_needs_num_queries", "P3R.C07.Witness.shape_needs_arity_lower_bound",
+        "P3R.C07.Witness.shape_needs_num_queries", "P3R.C07.Witness.arity_zero_rejected_by_both",
         "P3R.C07.Witness.shape_needs_arity_upper_bound", "P3R.C07.Witness.shape_needs_phase",
         "P3R.C07.Witness.shape_needs_matched_heights",
     ],
@@ -161,5 +161,5 @@ MANIFEST_ENTRY = {
         "text": "Lean theorems about the L10 models: shape-validation equivalence under explicit hypotheses (each shown necessary), index/point arithmetic for every arity schedule, reconstruct_evals closed forms, arity-2/4 fold = native Lagrange formula, general-arity sequential fold = polynomial value, Horner chains and fast path, final polynomial. Models tied to the Rust by line-by-line equality of native verdict (with error variant) and circuit outcome on generated honest proofs and single alterations; whole-PCS agreement (MMCS, PoW, index sampling) judged on the real code only.",
         "design_ref": "4/C07",
     },
-    "level_note": "Lean kernel + 3 standard axioms; models hand-written (correspondence-tested); executable field instances unverified; Merkle/transcript parts not modelled here; five known findings where circuit and native verdicts differ",
+    "level_note": "Lean kernel + 3 standard axioms; models hand-written (correspondence-tested); executable field instances unverified; Merkle/transcript parts not modelled here; known defects C07-F2, F3, F4, F5 where circuit and native verdicts differ; C07-F1 and C07-F3c fixed (fixes/C07-1.diff, fixes/C07-2.diff), their witnesses in corpus/c07 are regression cases",
 }
